@@ -618,7 +618,11 @@ func symConv(t_dst, t_src types.Type, x value) value {
 	case sym:
 		if db, ok := ut_dst.(*types.Basic); ok {
 			if db.Kind() == types.String {
-				// string(rune): concretise
+				// string(rune): a single byte when the value is ASCII on this path, else concretise
+				w := xv.t.W
+				if !ex.Branch(Not(Cmp(OUlt, xv.t, BV(0x80, w)))) {
+					return mkStr([]value{mkVal(types.Uint8, Extract(xv.t, 7, 0))})
+				}
 				return conv(t_dst, t_src, conc(x))
 			}
 			if db.Kind() == types.UnsafePointer {
